@@ -66,7 +66,10 @@ Inductive frame_case :=
 | FAggregate (input : frame) (keycols : list bytes) (groups : list (list nat)) (aggs : list agg_spec) (out : frame)
 | FString (ftbl : list (N * bytes)) (input : frame) (out : bytes).
 
-Definition first_nonzero (a b : N) : N := if a =? 0 then b else a.
+(* oracle code first; when the oracle rejects (2) AND the exact model does not predict the implementation's
+   output either, the code is 4: a deviation that is not the modelled (known) behaviour of the current code *)
+Definition first_nonzero (a b : N) : N :=
+  if a =? 0 then b else if (a =? 2) && negb (b =? 0) then 4 else a.
 
 Definition newdata_cells (d : newdata) (is_enum : bool) : option (ctype * list cell) :=
   let s c := if is_enum then CEnum c else CStr c in
